@@ -327,6 +327,21 @@ def assignCs (σ : State) (t : Loc) (src : Except Err V) (off : Nat) : Except Er
   | .ok (.sstr s) => if off ≤ s.length then assignString σ t (s.drop off) else .error .badarg
   | .ok _ => .error .badarg
 
+/-- `p = k` for `const String& k = q.object().kv()[i].key`, the name of the `i`-th property of the object `q` read through
+the source reference: `operator=(const String&)`; when the target holds that object, the name is copied before the object is
+released (commit 782f6e9) -/
+def assignKey (σ : State) (t : Loc) (src : Except Err V) (i : Nat) : Except Err State :=
+  match src with
+  | .error e => .error e
+  | .ok (.obj id) =>
+    match getB σ.heap id with
+    | .error e => .error e
+    | .ok b =>
+      match b.items[i]? with
+      | some kv => assignString σ t kv.1
+      | none => .error .badarg
+  | .ok _ => .error .badarg
+
 /-! ## constructors -/
 
 /-- `Var(const char*)`, `Var(const String&)` -/
@@ -1047,6 +1062,7 @@ inductive Op
   | clear (p : Path)
   | extend (p q : Path)                  -- `p.extend(q);`
   | setSub (p : Path) (off : Nat)        -- `p = *p + off;` the const char* assignment from inside the Var's own string
+  | setKey (p q : Path) (i : Nat)        -- `p = q.object().kv()[i].key;` the const String& assignment from a property NAME of `q` (e.g. of `p` itself)
   | setCs (p q : Path) (off : Nat)       -- `p = *q + off;` the const char* assignment from the string Var at `q` (e.g. `v = *v[0]`)
   | clone (k : Nat) (q : Path)           -- root k = `new Var(q.clone())`, old root destroyed afterwards
   | copy (k : Nat) (q : Path)            -- root k = `new Var(q)`
@@ -1202,6 +1218,7 @@ def opBody (guard : Bool) (σ : State) (t : Loc) (sl : Option Loc) : Op → Exce
   | .extend _ _ => opExtend guard σ t sl
   | .setSub _ off => assignSuffix σ t off
   | .setCs _ _ off => assignCs σ t (srcVal σ sl) off
+  | .setKey _ _ i => assignKey σ t (srcVal σ sl) i
   | _ => .error .badarg
 
 /-- root k = `new Var(q.clone())`, then the old root is destroyed -/
@@ -1310,6 +1327,7 @@ def targetOf : Op → Option Path
   | .extend p _ => some p
   | .setSub p _ => some p
   | .setCs p _ _ => some p
+  | .setKey p _ _ => some p
   | _ => none
 
 /-- the source operand of a statement (a `const Var&`) -/
@@ -1318,6 +1336,7 @@ def srcOf : Op → Option Path
   | .app _ q => some q
   | .extend _ q => some q
   | .setCs _ q _ => some q
+  | .setKey _ q _ => some q
   | _ => none
 
 /-- the Var the source reference designates, evaluated BEFORE the target path (as the C++ does) -/
